@@ -9,6 +9,8 @@
  r4 REFUSAL    both operations return nothing, before building anything, when the arguments are not correctly defined.
  r5 SUPPORT    the graph closure and the alias renumbering they rely on are decided by C14 (ExpandInputs mirror/closure shape) and C07
                (SubstitueAliases refresh); SortSubset filters the list in list order.
+ r9 MAXPART-EVALUATED  GetAllCstMaxPart + CheckCst interpreted on every schema of up to four constituents (any list order, any acyclic
+               choice of inputs, any selection) against the least fixpoint, in list order.
 Not decided: preservation of status/typification as values.
 """
 from engine.cfgq import call_sites, paths_avoiding, dominating_guards, success_exits
